@@ -213,7 +213,7 @@ def u_swu_g2(ctx):
             for e in etas:
                 f_k = (e * r * t3) * (e * r * t3) * v_ - rhs
                 ok = ok and path.pc.prove_nonzero(f_k.r.n) and path.pc.prove_zero((f_k - t3 * t3 * u_ * (e * e * chk - Z * Z * Z)).r.n)
-            path.prove(f"{q}/raises.never", ok,
+            path.prove(f"{q}/raises.never", ok, via="polyid",
                        detail="'SWU failure': all four tests f_k = t^6 u (eta_k^2 chk - Z^3) fail, i.e. eta_k^2 chk != Z^3 for every k, "
                               "although chk^4 = -1 — excluded by the table fact swu.G2.root-tables: unreachable")
             return
@@ -291,20 +291,20 @@ def u_sqrt_division_fq2_complete(ctx):
         got = flag if isinstance(flag, bool) else path.case(flag, "is_valid_root")
         f = [(rho * gamma) * (rho * gamma) * v - u for rho in roots]
         ident = all(path.pc.prove_zero((f[k] - u * (roots[k] * roots[k] * chk - K(1))).r.n) for k in range(4))
-        path.prove(f"{q}/lemma.tests", ident, detail="the k-th test of the loop is f_k = u (rho_k^2 chk - 1), gamma = c u v^7, chk = c^2 u v^15")
+        path.prove(f"{q}/lemma.tests", ident, via="polyid", detail="the k-th test of the loop is f_k = u (rho_k^2 chk - 1), gamma = c u v^7, chk = c^2 u v^15")
         matched = [k for k in range(4) if path.pc.prove_zero(f[k].r.n)]
         failed = [k for k in range(4) if path.pc.prove_nonzero(f[k].r.n)]
         if square:
             # chk^4 = 1.  T1: some rho_k^2 chk = 1, i.e. some f_k = 0: the path on which all four tests fail is contradictory
             if not got:
-                path.prove(f"{q}/ensures.complete", ident and len(failed) == 4,
+                path.prove(f"{q}/ensures.complete", ident and len(failed) == 4, via="polyid",
                            detail="u/v square but no candidate accepted: all rho_k^2 chk != 1 although chk^4 = 1 — excluded by table fact T1: unreachable")
                 return
             path.prove(f"{q}/ensures.root", eqz(r * r * v, u), detail="square: (True, r) with r^2 v = u")
         else:
             # chk^4 = -1.  A passed test f_k = 0 gives rho_k^2 chk = 1 (u != 0), hence chk^4 = rho_k^-8 = 1 (T2): contradiction
             if got:
-                path.prove(f"{q}/ensures.exact", ident and len(matched) >= 1,
+                path.prove(f"{q}/ensures.exact", ident and len(matched) >= 1, via="polyid",
                            detail="u/v non-square but a candidate accepted: rho_k^2 chk = 1 forces chk^4 = 1 (T2), not -1: unreachable")
                 return
             path.prove(f"{q}/ensures.gamma", eqz(r * r * v, u * chk), detail="non-square: (False, r) with r^2 v = u chk, chk^4 = -1")
